@@ -362,7 +362,8 @@ def run(ck: Check):
     # generator and forward both read it), the frozen mode of the learnable thermometer.  Saved with the state, rebuilt with the same
     # constructor arguments under another seed, loaded: same function
     from torchlogix.layers import LearnableThermometerThresholding as LTT
-    for name in ("conv-hand-wired-level1", "conv-hand-wired-level0", "dense-hand-wired", "thermometer-frozen"):
+    for name in ("conv-hand-wired-level1", "conv-hand-wired-level0", "dense-hand-wired", "thermometer-frozen",
+                 "thermometer-unfrozen-no-grad", "thermometer-frozen-grad-reopened"):
         ck.case({"kind": "post-construction-state", "name": name}, nontrivial=True, kind="post-construction-state")
         torch.manual_seed(ck.seed + 11)
         if name.startswith("conv"):
@@ -383,7 +384,12 @@ def run(ck: Check):
         else:
             mk = lambda: LTT(init_thresholds=[1.0, 2.0, 3.0])
             src = mk()
-            src.freeze_thresholds()
+            if name == "thermometer-unfrozen-no-grad":
+                src.requires_grad_(False)            # an inference export switches gradients off: the layer is still unfrozen (soft code)
+            else:
+                src.freeze_thresholds()
+                if name == "thermometer-frozen-grad-reopened":
+                    src.requires_grad_(True)         # fine-tuning reopens the gradients of the whole model: the layer is still frozen
             x = torch.rand(4, 3, 3) * 4
         src.eval()
         with torch.no_grad():
